@@ -336,6 +336,12 @@ func (c *client) connect1(ctx async.Context) (internalConn, status.Status) {
 
 	// Return if connected
 	if st.OK() {
+		// The connection can be already closed and removed by onConnClosed, which could not start
+		// a new routine while this one was registered, so reconnect in auto-connect mode.
+		if c.mode == ClientMode_AutoConnect && c.conns.Load().len() == 0 && !c.closed_.IsSet() {
+			routine := async.Run(c.connect1)
+			c.connecting.Set(routine)
+		}
 		return conn, st
 	}
 
@@ -400,6 +406,12 @@ func (c *client) connectRecover(ctx async.Context) (_ internalConn, st status.St
 	if c.closed_.IsSet() {
 		conn.Close()
 		return nil, status.Closedf("mpx client closed")
+	}
+
+	// The connection is already running and can be already closed, do not add it,
+	// onConnClosed is not called again.
+	if conn.Closed().IsSet() {
+		return nil, statusConnClosed
 	}
 
 	conns := c.conns.Load().add(conn)
